@@ -567,7 +567,7 @@ func (e *SpecEnv) deref(v Val) Val {
 	if !ok {
 		return e.errorf("deref of non-pointer")
 	}
-	es := c.sortOf(pt.Elem())
+	es := c.hk(pt.Elem())
 	return Val{T: c.rd(e.heapOf(es), c.acc("pobj", v.T), c.acc("pidx", v.T)), Ty: pt.Elem()}
 }
 
@@ -627,7 +627,7 @@ func (e *SpecEnv) index(v, i Val) Val {
 	c := e.c
 	switch tt := v.Ty.Underlying().(type) {
 	case *types.Slice:
-		es := c.sortOf(tt.Elem())
+		es := c.hk(tt.Elem())
 		h := e.heapOf(es)
 		if e.heapParams == nil {
 			c.wantSliceWF(es, h)
@@ -646,7 +646,7 @@ func (e *SpecEnv) index(v, i Val) Val {
 		return Val{T: fmt.Sprintf("(select (select %s %s) %s)", e.heapOf(k+"!val"), v.T, i.T), Ty: tt.Elem()}
 	case *types.Pointer:
 		if at, ok := tt.Elem().Underlying().(*types.Array); ok {
-			es := c.sortOf(at.Elem())
+			es := c.hk(at.Elem())
 			return Val{T: c.rd(e.heapOf(es), c.acc("pobj", v.T), addOff(c.acc("pidx", v.T), i.T)), Ty: at.Elem()}
 		}
 	}
@@ -957,19 +957,50 @@ func (c *Ctx) findSpec(name string, pkg *types.Package) *SpecFunc {
 	return nil
 }
 
-func (c *Ctx) instSpec(sf *SpecFunc) *specInst {
+// instSpec instantiates a spec function. A spec function is generic in the Go
+// type of a reference-typed parameter as long as the SMT sort agrees (e.g.
+// sumLen over []Path applied to a []LineString): heaps are keyed by Go type, so
+// each such use gets its own instance whose body reads the heaps of the actual
+// argument types.
+func (c *Ctx) instSpec(sf *SpecFunc, actual []types.Type) *specInst {
 	key := sf.Pkg + "::" + sf.Name
+	pkg := c.prog.TypesPkgs[sf.Pkg]
+	subst := map[int]types.Type{}
+	suffix := ""
+	for i, p := range sf.Params {
+		if i >= len(actual) || actual[i] == nil {
+			continue
+		}
+		t := c.resolveType(p.T, pkg)
+		if t == nil || types.Identical(t, actual[i]) || !isRefType(t) || !isRefType(actual[i]) {
+			continue
+		}
+		if _, isIface := t.Underlying().(*types.Interface); isIface {
+			continue
+		}
+		if c.sortOf(t) == c.sortOf(actual[i]) && elemKeysDiffer(c, t, actual[i]) {
+			subst[i] = actual[i]
+			suffix += fmt.Sprintf("|%d=%s", i, types.TypeString(actual[i], nil))
+		}
+	}
+	key += suffix
 	if si, ok := c.specDone[key]; ok {
 		return si
 	}
-	pkg := c.prog.TypesPkgs[sf.Pkg]
-	si := &specInst{name: "sp_" + sanitize(sf.Name), pending: true, sf: sf, recDeps: map[string]*specInst{}}
+	nm := "sp_" + sanitize(sf.Name)
+	if suffix != "" {
+		nm += fmt.Sprintf("_g%d", hashStr(suffix)%100000)
+	}
+	si := &specInst{name: nm, pending: true, sf: sf, recDeps: map[string]*specInst{}}
 	c.specDone[key] = si
 	var ptypes []types.Type
 	vars := map[string]Val{}
 	var formals []string
-	for _, p := range sf.Params {
+	for pi, p := range sf.Params {
 		t := c.resolveType(p.T, pkg)
+		if st, ok := subst[pi]; ok {
+			t = st
+		}
 		if t == nil {
 			c.errs = append(c.errs, fmt.Sprintf("spec %s: unknown type %s", sf.Name, p.T))
 			t = tInt
@@ -1079,13 +1110,24 @@ func (e *SpecEnv) trNamedCall(name string, args []Expr) Val {
 		}
 		return e.errorf("unknown spec function %q", name)
 	}
-	si := c.instSpec(sf)
 	if len(args) != len(sf.Params) {
 		return e.errorf("spec %s: %d arguments expected", name, len(sf.Params))
 	}
-	var ts []string
-	for i, a := range args {
+	var argVals []Val
+	var argTypes []types.Type
+	for _, a := range args {
 		v := e.tr(a)
+		argVals = append(argVals, v)
+		if v.T == "nil" {
+			argTypes = append(argTypes, nil)
+		} else {
+			argTypes = append(argTypes, v.Ty)
+		}
+	}
+	si := c.instSpec(sf, argTypes)
+	var ts []string
+	for i := range args {
+		v := argVals[i]
 		if i < len(si.params) {
 			if isFloat(si.params[i]) && v.Ty != nil && isInteger(v.Ty) {
 				v = e.intToFloat(v)
@@ -1192,12 +1234,12 @@ func (e *SpecEnv) modItems(m Expr) []modItem {
 		}
 		if deref {
 			if _, isArr := tt.Elem().Underlying().(*types.Array); !isArr {
-				return []modItem{{sortKey: c.sortOf(el), obj: c.acc("pobj", v.T), idx: c.acc("pidx", v.T)}}
+				return []modItem{{sortKey: c.hk(el), obj: c.acc("pobj", v.T), idx: c.acc("pidx", v.T)}}
 			}
 		}
-		return []modItem{{sortKey: c.sortOf(el), obj: c.acc("pobj", v.T)}}
+		return []modItem{{sortKey: c.hk(el), obj: c.acc("pobj", v.T)}}
 	case *types.Slice:
-		return []modItem{{sortKey: c.sortOf(tt.Elem()), obj: c.acc("sobj", v.T)}}
+		return []modItem{{sortKey: c.hk(tt.Elem()), obj: c.acc("sobj", v.T)}}
 	case *types.Map:
 		k := c.mapKey(v.Ty)
 		return []modItem{{sortKey: k + "!dom", obj: v.T}, {sortKey: k + "!val", obj: v.T}}
@@ -1605,4 +1647,20 @@ func constFold(x Expr) (float64, bool) {
 	}
 	v, ok := ev(x)
 	return v, ok && hasFloat
+}
+
+// elemKeysDiffer: same sort and heap key for the value itself, but the cells it
+// points to live in different heaps (e.g. []Path vs []LineString).
+func elemKeysDiffer(c *Ctx, a, b types.Type) bool {
+	switch x := a.Underlying().(type) {
+	case *types.Slice:
+		if y, ok := b.Underlying().(*types.Slice); ok {
+			return c.hk(x.Elem()) != c.hk(y.Elem()) || elemKeysDiffer(c, x.Elem(), y.Elem())
+		}
+	case *types.Pointer:
+		if y, ok := b.Underlying().(*types.Pointer); ok {
+			return c.hk(x.Elem()) != c.hk(y.Elem()) || elemKeysDiffer(c, x.Elem(), y.Elem())
+		}
+	}
+	return false
 }
